@@ -56,6 +56,9 @@ func genOff(a hx.Args) {
 		committed := r.Intn(2)
 		how := hx.Pick(r, []string{"P", "P", "T", "T", "S"})
 		kind := hx.Pick(r, []string{"at", "at", "at", "start", "end", "end", "milli", "milli", "milli", "cm"})
+		if how == "P" && r.Chance(40) {
+			kind = "at" // exact offsets only mean something for pinned partitions, and they have two resolution paths (see late metadata)
+		}
 		av, bv, epoch := int64(0), int64(0), int64(-1)
 		switch kind {
 		case "at":
@@ -339,6 +342,16 @@ func runOff(t *testing.T, tk []string) string {
 	if os.Getenv("VERIF_DEBUG") != "" {
 		copts = append(copts, kgo.WithLogger(kgo.BasicLogger(os.Stderr, kgo.LogLevelDebug, nil)))
 	}
+	late := how == "P" && seed%2 == 0
+	if late {
+		// late metadata: the Metadata responses the consumer gets at first show the topic as unknown. The client retries
+		// eight times at 250 ms and then goes on: the pinned partition is assigned before it is loaded, and even an exact
+		// offset is then resolved through ListOffsets (once the topic shows up) instead of being put on the cursor
+		outage := &sim.LeaderOutage{}
+		outage.Install(net)
+		outage.HideTopic("t", 9)
+		hx.St.Inc("off.late-metadata")
+	}
 	co, err := kgo.NewClient(copts...)
 	if err != nil {
 		return "ERR:consumer:" + err.Error()
@@ -364,6 +377,9 @@ func runOff(t *testing.T, tk []string) string {
 				first = r.Offset
 			}
 		})
+	}
+	if late {
+		time.Sleep(12 * time.Second) // the log is left alone until the client has seen the topic and resolved its offset
 	}
 	for i := 0; i < 10 && first < 0; i++ {
 		poll()
